@@ -42,6 +42,15 @@ ASSUMPTIONS = [
 def case(draw):
     spec = draw(treegen.tree_spec())
     lay = draw(layout.layout(spec, lies=True, dup_manifest_entries=True))
+    if draw(st.integers(0, 5)) == 0:
+        # a file that simply is not listed (nothing on disk is touched, so
+        # no directory mtime gives it away)
+        for m in lay['manifests']:
+            fe = [e for e in m['entries']
+                  if e['tag'] in ('DATA', 'MISC', 'EBUILD', 'AUX')]
+            if fe and draw(st.booleans()):
+                m['entries'].remove(draw(st.sampled_from(fe)))
+                lay['tags'].append('unlisted-file')
     rendered = layout.render(lay)
     muts = draw(mutate.mutations(spec, lay, rendered, max_ops=4))
     vis = treegen.visible(spec)
@@ -59,6 +68,20 @@ def case(draw):
                                    for lp in link_paths):
             return False
         return True
+    # a stray file in a directory that shares its name with a pruned
+    # (IGNOREd) directory elsewhere in the tree
+    pruned = sorted(i for i in ignores if i in vis and vis[i][0] == 'd')
+    hosts = [''] + sorted(p for p, v in vis.items() if v[0] == 'd'
+                          and usable_dir(p, False))
+    if pruned and draw(st.integers(0, 3)) == 0:
+        base = os.path.basename(draw(st.sampled_from(pruned)))
+        host = draw(st.sampled_from(hosts))
+        twin = (host + '/' if host else '') + base
+        if twin not in vis and not any(
+                refverify.comp_prefix(i, twin) for i in ignores):
+            muts = muts + [{'op': 'add', 'p': twin + '/stray in twin',
+                            'c': 'stray\n', 'm': BASE_MTIME}]
+            lay['tags'].append('twin-of-pruned-directory')
     api = draw(st.sampled_from(['lib', 'lib', 'lib', 'cli', 'cli2']))
     dirs = [''] + sorted(p for p, v in vis.items() if v[0] == 'd'
                          and usable_dir(p, api == 'lib'))
@@ -69,7 +92,9 @@ def case(draw):
     if api == 'lib' and draw(st.integers(0, 2)) == 0:
         last_mtime = draw(st.sampled_from(
             [BASE_MTIME - 100, BASE_MTIME, BASE_MTIME + 25, BASE_MTIME + 50,
-             BASE_MTIME + 100, BASE_MTIME + 200]))
+             BASE_MTIME + 100, BASE_MTIME + 200,
+             # later than everything, directories included
+             4_000_000_000]))
         # ... or next to an actual file mtime, also within the same second
         known = [n['m'] for n in spec['nodes'] if 'm' in n] + [
             o['m'] for o in muts if 'm' in o]
